@@ -2251,7 +2251,7 @@ func (e *CoreExtension) functionParent(args ...interface{}) (interface{}, error)
 
 		// Check for parent content in the parentBlocks map
 		parentContent, ok := ctx.parentBlocks[blockName]
-		if !ok || len(parentContent) == 0 {
+		if !ok {
 			return "", fmt.Errorf("no parent block content found for block '%s'", blockName)
 		}
 
